@@ -11,7 +11,7 @@ STRAT_TECH = "; thorough tier adds coverage-guided structured fuzzing (libFuzzer
 STRAT_TEXT = " Thorough additionally runs a coverage-guided libFuzzer campaign whose input is decoded by a hand-written data provider into this property's case and judged by the same oracle."
 CHECKS = {
  "C01": ("exploration", "property-based testing (proptest): round trip + suffix metamorphic relation over constructed well-formed messages",
-         "Seeded random search with shrinking over well-formed messages built by construction (all 32 header-flag combinations, every message-type family, every payload kind, every argument kind/width/coding, boundary lengths up to 65535) x two suffixes; the crate's serialisation is parsed back and compared field for field (floats by bits), the remainder must be exactly the suffix. Absence of a counter-example in 200k (quick) / 3M (thorough) generated cases, not a proof. Call histories on one thread are part of every case: a damaged copy parsed first, an ill-formed value serialised first, the other-byte-order twin of the message serialised in between.",
+         "Seeded random search with shrinking over well-formed messages built by construction (all 32 header-flag combinations, every message-type family, every payload kind, every argument kind/width/coding, boundary lengths up to 65535) x two suffixes; the crate's serialisation is parsed back and compared field for field (floats by bits), the remainder must be exactly the suffix. Absence of a counter-example in 200k (quick) / 3M (thorough) generated cases, not a proof. Call histories on one thread are part of every case: a damaged copy parsed first, an ill-formed value serialised first, the other-byte-order twin of the message serialised in between. Argument lists contain related neighbours (differing in one field only, names that extend each other, repeats, texts that collide under common 32-bit string hashes); header fields are related on purpose in about a tenth of the messages (equal ids in two roles, prefixes, a session id that spells the ECU id, carried records that continue their carrier).",
          "Trusts the generator's notion of 'well-formed' (DESIGN.md 3.1, taken clause by clause from the quantifier) and the structural comparator; errors made consistently in writer and reader are C02's job.", "DESIGN.md 4/C01"),
  "C02": ("exploration", "differential testing against an independently written reference codec (proptest grid + random + hostile bytes; libFuzzer in the thorough tier)",
          "Encode: a systematic grid over all 32 flag combinations x 256 MSIN bytes x 2 storage modes plus free random messages, crate bytes compared byte for byte with the reference encoder. Decode: hostile byte strings (canonical, wire-level dialect, mutated, arbitrary, > 64 KiB) judged in both storage modes against the reference decoder's verdict (fields + consumed length / incomplete / reject). Thorough adds a coverage-guided byte-level libFuzzer campaign (target bytes) with the same oracle in the target.",
@@ -29,10 +29,10 @@ CHECKS = {
          "The pattern search is compared with a naive first-occurrence search on arbitrary / low-entropy / 70 KB / multi-megabyte inputs with planted patterns, and bounded-exhaustively with the pattern placed around every power-of-two block boundary from 16 B to 2 MiB; junk ++ message ++ suffix must parse like message ++ suffix, without a filter and under 7 filter configurations (kept and filtered-out results alike); streams with junk between messages must be recovered completely and in order (with a filter: one result per message). Payloads carrying runs of complete stored records (log-in-log) and a reused-buffer history are part of the generator.",
          "Junk is pattern-free by construction (scrubbed); relies on 'DLT\\x01' having no border.", "DESIGN.md 4/C06"),
  "C07": ("exploration", "property-based testing over generated read schedules and fault placements against a slice-cutting reference",
-         "The harness owns the byte source: generated sequences of short reads, single and long runs (2..5000) of ErrorKind::Interrupted, plus systematic constant-chunk schedules (1..64, with/without interruption before every read) over well-formed, truncated, hostile, hostile-length and long streams (hundreds to thousands of messages, large messages), read through ::new and through with_capacity readers down to buffers exactly as long as the longest declared message; the outcome sequence of read_message and next_message_slice must equal cutting the stream at the declared lengths and parsing each piece; no panic, bounded number of calls. Streams include bursts (one message repeated with single header fields changed) and records that carry other records; a second filter configuration may be passed at every other call of one reader.",
+         "The harness owns the byte source: generated sequences of short reads, single and long runs (2..5000) of ErrorKind::Interrupted, plus systematic constant-chunk schedules (1..64, with/without interruption before every read) over well-formed, truncated, hostile, hostile-length and long streams (hundreds to thousands of messages, large messages), read through ::new and through with_capacity readers down to buffers exactly as long as the longest declared message; the outcome sequence of read_message and next_message_slice must equal cutting the stream at the declared lengths and parsing each piece; no panic, bounded number of calls. Streams include bursts (one message repeated with single header fields changed) and records that carry other records; a second filter configuration may be passed at every other call of one reader, through one configuration object that is edited in place; behind a declared length below 4 the outcomes must not depend on the fragmentation.",
          "Schedules are sampled (plus the systematic family), not exhausted; for a declared length < 4 only no-panic / termination / prefix delivery is asserted, as the statement fixes nothing more.", "DESIGN.md 4/C07"),
  "C08": ("exploration", "differential testing async vs blocking reader over generated poll schedules on a hand-rolled executor",
-         "Generated sequences of Poll::Pending (single and long runs) / Poll::Ready(k) (source wakes before Pending) plus systematic schedules, over the streams and reader constructions of C07 (incl. tight with_capacity readers and long streams); the async reader is polled with a poll budget and its outcome sequence (messages by bits, error class, end) must equal the blocking reader's on an always-ready source. The executor counts wake-ups: a poll that returns Pending although nothing woke the task is a lost wake-up; a second filter configuration may be passed at every other call.",
+         "Generated sequences of Poll::Pending (single and long runs) / Poll::Ready(k) (source wakes before Pending) plus systematic schedules, over the streams and reader constructions of C07 (incl. tight with_capacity readers and long streams); the async reader is polled with a poll budget and its outcome sequence (messages by bits, error class, end) must equal the blocking reader's on an always-ready source. The executor counts wake-ups: a poll that returns Pending although nothing woke the task is a lost wake-up; a second filter configuration may be passed at every other call, through one configuration object that is edited in place.",
          "The blocking reader is the reference (C07 decides its own conformance); real reactor timing is out of scope; a poll budget, not wall-clock, decides 'never completes'.", "DESIGN.md 4/C08"),
  "C09": ("exploration", "property-based testing against an independent decision procedure written from the statement",
          "Filter configurations (every criterion absent/present, all level numbers, empty/duplicate/hitting/missing id lists, near-miss ids such as ids longer than the 4-byte wire field, counts around the set sizes, both From conversions) x well-formed messages x suffix; the drop/keep decision, the FilteredOut payload length, the remainder and the equality of kept messages with the unfiltered parse are checked, also through read_message. A quarter of the cases also run as a stream of siblings (one header field changed) through one reader and repeated slice parsing, each verdict judged on its own; a third of the processed configurations are struct literals or rewritten after conversion.",
